@@ -427,6 +427,22 @@ where
     let (f, w, e) = build(false);
     let log1 = run(&f, w.as_ref(), &e, c.erased_rt);
     compare(&log1, &m.main, m.accepted, "emit", cx)?;
+    // recorded, never asserted (don't-care): evaluation counts
+    let evaluated = |lo: u32, hi: u32| {
+        log1.iter()
+            .filter(|r| matches!(r, Rec::FilterSaw { id, .. } if (lo..hi).contains(id)))
+            .count()
+    };
+    if m.uses_when {
+        cx.class_if(
+            evaluated(ID_FILTER, ID_WHEN) > 0,
+            "dont-care:runtime-filter-consulted-although-call-site-filter-given",
+        );
+        cx.class_if(evaluated(ID_WHEN, ID_DEST) == 0, "dont-care:effective-filter-has-no-recording-leaf-evaluated");
+    } else {
+        cx.class_if(evaluated(ID_FILTER, ID_WHEN) == 0, "dont-care:effective-filter-has-no-recording-leaf-evaluated");
+    }
+    cx.class_if(evaluated(ID_FILTER, ID_DEST) >= 3, "filter-leaves-evaluated>=3");
 
     // 2. the same tree with every node behind `dyn Erased*`: identical observations, in order
     let (f2, w2, e2) = build(true);
@@ -591,6 +607,9 @@ pub fn classify(c: &Case, m: &Model, cx: &mut Cx) {
     let delivered: usize = m.main.emits.values().map(|v| v.len()).sum();
     cx.class_if(m.accepted && delivered == 0, "accepted-but-no-reachable-leaf");
     cx.class_if(delivered >= 2, "delivered-to-2+-leaves");
+    cx.class_if(c.filter.nodes() >= 5, "filter-tree>=5-nodes");
+    cx.class_if(c.dest.nodes() >= 5, "dest-tree>=5-nodes");
+    cx.class_if(c.dest.nodes() >= 9, "dest-tree>=9-nodes");
     let effective = if m.uses_when { c.when.as_ref().unwrap() } else { &c.filter };
     // the stated rule
     cx.nontrivial(effective.composites() >= 1 && c.dest.composites() >= 1 && (!m.ambient.is_empty() || dup || m.uses_when));
